@@ -116,6 +116,8 @@ def check(case):
 
     if raised is None:
         # ---- (a)/(b)/(d): fire back with the returned elevation and no further hold-over
+        if ret.raw_value < 0:
+            r.label("returned:zero-below-sight-line")
         s2 = dict(spec, zero=ret.raw_value, rel=0.0)
         calc2 = build.calculator(cfg)
         rows, err = build.fire(calc2, build.shot(s2), Rh + 5.0, Rh)
@@ -171,7 +173,22 @@ def check(case):
                     break
                 prev_e, prev_y = e_deg, y
             if base - aim_y > 0:
-                reach_margin = False  # sight-line launch already above the aim point (negative hold): not asserted
+                # sight-line launch already above the aim point (bore above the sight, short distance): the zero lies
+                # *below* the sight line - bracket it downwards in the same way
+                reach_margin = False
+                prev_e, prev_y = 0.0, base
+                for e_deg in (0.5, 2.0, 5.0):
+                    y = _height_at(c3, spec, look - e_deg * gen.DEG, Rh)
+                    if y is None:
+                        break
+                    if (y - aim_y) <= 0 <= (prev_y - aim_y):
+                        sens = (prev_y - y) / ((e_deg - prev_e) * gen.DEG)
+                        if sens >= 0.3 * Rh:
+                            reach_margin = True
+                            r.label("raised:zero-below-sight-line")
+                        break_sens = sens
+                        break
+                    prev_e, prev_y = e_deg, y
         if reach_margin and (n_it < 20 or acc < 5e-6):
             r.label("few-iterations-allowed-to-fail")   # a calculator capped below the default may legitimately give up
         elif reach_margin:
